@@ -2199,6 +2199,22 @@ impl<'a> Searcher<'a> {
                     }
                 }
                 VariantType::Int => {
+                    // a whole number against a decimal literal (`size > 1.5`, `size = 10.0`) is compared by value
+                    if let Ok(val) = value.to_string().parse::<f64>() {
+                        if value.to_string().contains('.') {
+                            let float_value = field_value.to_int() as f64;
+                            return match op {
+                                Op::Eq | Op::Eeq => float_value == val,
+                                Op::Ne | Op::Ene => float_value != val,
+                                Op::Gt => float_value > val,
+                                Op::Gte => float_value >= val,
+                                Op::Lt => float_value < val,
+                                Op::Lte => float_value <= val,
+                                _ => false,
+                            };
+                        }
+                    }
+
                     let val = value.to_int();
                     let int_value = field_value.to_int();
                     match op {
